@@ -39,6 +39,8 @@ func litmusTests() []litmus {
 	var flag32 uint32
 	var ch chan int
 	var sem chan struct{}
+	var cond *vsync.Cond
+	var smap *vsync.Map
 	var mu, a, b vsync.Mutex
 	var once vsync.Once
 	var wg vsync.WaitGroup
@@ -200,6 +202,69 @@ func litmusTests() []litmus {
 				func() string { vchan.Recv1(ch); return "" },
 				func() string { return "" }},
 			wantKind: "failure", minPreemp: 0, want: []string{"", ""}},
+		{name: "condition variable waited on in a loop", reset: func() { data, flag = 0, 0; mu = vsync.Mutex{}; cond = vsync.NewCond(&mu) },
+			threads: []func() string{
+				func() string {
+					mu.Lock()
+					for *vrt.R(&flag) == 0 {
+						cond.Wait()
+					}
+					v := *vrt.R(&data)
+					mu.Unlock()
+					return str(v)
+				},
+				func() string {
+					mu.Lock()
+					*vrt.W(&data) = 5
+					*vrt.W(&flag) = 1
+					mu.Unlock()
+					cond.Signal()
+					return ""
+				}},
+			wantKind: "", wantAll: true, want: []string{"5", ""}},
+		{name: "a single Wait woken by somebody else's Broadcast", reset: func() { data, flag, c = 0, 0, 0; mu = vsync.Mutex{}; cond = vsync.NewCond(&mu) },
+			threads: []func() string{
+				func() string {
+					mu.Lock()
+					if *vrt.R(&flag) == 0 {
+						cond.Wait() // not re-checked
+					}
+					mu.Unlock()
+					_ = *vrt.R(&data)
+					return ""
+				},
+				func() string {
+					cond.Broadcast() // meant for somebody else
+					*vrt.W(&data) = 5
+					mu.Lock()
+					*vrt.W(&flag) = 1
+					mu.Unlock()
+					cond.Broadcast()
+					return ""
+				}},
+			wantKind: "race", want: []string{"", ""}, cachedOnly: true},
+		{name: "sync.Map: object stored complete", reset: func() { smap = &vsync.Map{} },
+			threads: func() []func() string {
+				f := func() string {
+					v := new(int)
+					*vrt.W(v) = 7
+					actual, _ := smap.LoadOrStore("k", v)
+					return str(*vrt.R(actual.(*int)))
+				}
+				return []func() string{f, f}
+			}(), wantKind: "", wantAll: true},
+		{name: "sync.Map: empty object published, filled in afterwards", reset: func() { smap = &vsync.Map{} },
+			threads: func() []func() string {
+				f := func() string {
+					actual, loaded := smap.LoadOrStore("k", new(int))
+					if !loaded {
+						*vrt.W(actual.(*int)) = 7
+					}
+					_ = *vrt.R(actual.(*int))
+					return ""
+				}
+				return []func() string{f, f}
+			}(), wantKind: "race"},
 		{name: "result aliasing a pooled buffer", reset: func() { pool = &vsync.Pool{New: func() any { return new([1]int) }} },
 			threads: func() []func() string {
 				f := func(v int) func() string {
@@ -247,7 +312,8 @@ func selftest() {
 		sc := litmusScenario(l)
 		var reps [2]report
 		for k, np := range []string{"", "1"} {
-			if k == 1 && l.cachedOnly {
+			if k == 1 && (l.cachedOnly || reps[0].Executions > 3000) {
+				// the uncached search of this program is too long to repeat on every run
 				reps[1] = reps[0]
 				continue
 			}
